@@ -316,3 +316,141 @@ UNITS += [
          assumptions=["StepSelection abstracted to a bit set; std::map insertion stubbed; the span is cut out of the constructor (from `StepSelection selection;` to `CELER_ASSERT(selection);`)"],
          note="StepParams constructor: non-zero-deposit filter = AND over callbacks, selection = OR over callbacks (lock-step loop invariant, any number of callbacks <= 8)"),
 ]
+
+
+# ---------------------------------------------------------------------------
+# Action / step diagnostics: one tally per delivered step, in the right bin
+# ---------------------------------------------------------------------------
+ADE = "src/celeritas/user/detail/ActionDiagnosticExecutor.hh"
+SDE = "src/celeritas/user/detail/StepDiagnosticExecutor.hh"
+ALGO = "src/corecel/math/Algorithms.hh"
+
+DIAG_MODEL = """
+#include <stdlib.h>
+#define INVALID_ID ((size_type)-1)
+enum { TS_inactive = 0, TS_initializing = 1, TS_alive = 2, TS_errored = 3, TS_killed = 4 };   /* TrackStatus (bound) */
+typedef struct { size_type num_bins, num_particles; } DiagParams;       /* ParticleTallyParamsData */
+typedef struct { size_type* ptr; size_type size; } Counts;
+typedef struct { Counts counts; } DiagState;                            /* ParticleTallyStateData: counts[particle * num_bins + bin] */
+typedef struct { size_type post_step_action, particle_id, num_steps; int status; } Track;
+typedef struct { Track const* t; } CoreTrackView;
+typedef struct { DiagParams params; DiagState state; } DiagExecutor;
+#define NCOUNT 64
+size_type g_w, g_oldw;     /* ghost: witness bin and its count before */
+#define COUNT(i) (self->state.counts.ptr[i])
+#define DIAG_OK (self != 0 && track != 0 && track->t != 0 && self->params.num_bins >= 1 && self->params.num_particles >= 1 && self->params.num_bins <= NCOUNT && self->params.num_particles <= NCOUNT \\
+    && self->state.counts.size == self->params.num_bins * self->params.num_particles && self->state.counts.size <= NCOUNT && __CPROVER_rw_ok(self->state.counts.ptr, NCOUNT * sizeof(size_type)) \\
+    && g_w < self->state.counts.size && g_oldw == COUNT(g_w) && g_oldw < (size_type)-1)
+"""
+
+
+def atomic_add_size(ctx):
+    aa = ctx.func(AT, r"CELER_FORCEINLINE_FUNCTION T atomic_add\(T\* address, T value\)", [
+        Rule(r"#if CELER_DEVICE_COMPILE\s*return atomicAdd\(address, value\);\s*#else", "", 1, note="device branch dropped (host build)"),
+        Rule(r"#\s*if defined\(_OPENMP\) && CELERITAS_OPENMP == CELERITAS_OPENMP_TRACK\s*#\s*pragma omp atomic capture\s*#\s*endif", "", 1, note="omp atomic pragma dropped: atomics treated sequentially"),
+        Rule(r"#endif", "", 1, note="preprocessor"),
+        Rule(r"\bT\b", "size_type", "+", note="template parameter bound to size_type"),
+    ], name="atomic_add<T>")
+    return "static size_type atomic_add(size_type* address, size_type value)\n{" + aa.body + "}\n"
+
+
+ADE_RULES = [
+    Rule(r"CELER_EXPECT\(params\);", "", 1, note="params validity is in the requires (DIAG_OK)"),
+    Rule(r"CELER_EXPECT\(state\);", "", 1, note="state validity is in the requires (DIAG_OK)"),
+    Rule(r"using BinId = ItemId<size_type>;", "", 1, note="type alias dropped"),
+    Rule(r"auto action = track\.make_sim_view\(\)\.post_step_action\(\);", "size_type action = track->t->post_step_action;", 1, note="view read"),
+    Rule(r"CELER_ASSERT\(action\);", "CELER_ASSERT(action != INVALID_ID);", "*", note="OpaqueId::operator bool"),
+    Rule(r"auto particle = track\.make_particle_view\(\)\.particle_id\(\);", "size_type particle = track->t->particle_id;", 1, note="view read"),
+    Rule(r"CELER_ASSERT\(particle\);", "CELER_ASSERT(particle != INVALID_ID);", "*", note="OpaqueId::operator bool"),
+    Rule(r"BinId bin\{", "size_type bin = (", 1, note="ItemId construction -> value"),
+    Rule(r"\+ action\.unchecked_get\(\)\};", "+ action);", 1, note="ItemId construction -> value"),
+    Rule(r"particle\.unchecked_get\(\)", "particle", "*", note="OpaqueId value"),
+    Rule(r"(?<![\w.>])params\.(\w+)", r"self->params.\1", "*", note="member"),
+    Rule(r"state\.counts\.size\(\)", "self->state.counts.size", "*", note="Collection::size()"),
+    Rule(r"&state\.counts\[bin\]", "&self->state.counts.ptr[bin]", "*", note="Collection[bin] address (bin < size asserted just above)"),
+    Rule(r"celeritas::atomic_add", "atomic_add", "*", note="namespace"),
+    Rule(r"size_type\(1\)", "(size_type)1", "*", note="functional cast"),
+]
+
+
+def build_action_diag(ctx):
+    pc = ctx.func(ADE, r"^ActionDiagnosticExecutor::operator\(\)\(CoreTrackView const& track\)", ADE_RULES, name="ActionDiagnosticExecutor::operator()")
+    return (HDR + DIAG_MODEL + atomic_add_size(ctx) + """
+#define ABIN (track->t->particle_id * self->params.num_bins + track->t->post_step_action)
+void ADE_call(DiagExecutor* self, CoreTrackView const* track)
+__CPROVER_requires(DIAG_OK)
+/* what the action's track filter and the physics guarantee for a delivered step: a defined particle type and a post-step action of the registry (num_bins = number of actions) */
+__CPROVER_requires(track->t->particle_id < self->params.num_particles && track->t->post_step_action < self->params.num_bins)
+__CPROVER_assigns(__CPROVER_object_whole(self->state.counts.ptr))
+/* the delivered step is counted exactly once, in the bin of ITS particle type and ITS post-step action; every other bin is untouched */
+__CPROVER_ensures(COUNT(g_w) == g_oldw + (g_w == ABIN ? 1 : 0))
+{""" + pc.body + """}
+void h_ade(void)
+{
+    DiagExecutor ex; Track t; CoreTrackView v = {&t}; size_type cnt[NCOUNT]; size_type w;
+    ex.state.counts.ptr = cnt; g_w = w; if (w < NCOUNT) g_oldw = cnt[w];
+    ADE_call(&ex, &v);
+    VERIF_CANARY();
+}
+""")
+
+
+SDE_RULES = [
+    Rule(r"CELER_EXPECT\(params\);", "", 1, note="params validity is in the requires (DIAG_OK)"),
+    Rule(r"CELER_EXPECT\(state\);", "", 1, note="state validity is in the requires (DIAG_OK)"),
+    Rule(r"using BinId = ItemId<size_type>;", "", 1, note="type alias dropped"),
+    Rule(r"auto sim = track\.make_sim_view\(\);", "", 1, note="view handle"),
+    Rule(r"sim\.status\(\)", "track->t->status", "*", note="view read"),
+    Rule(r"TrackStatus::(\w+)", r"TS_\1", "*", note="enum value (bound)"),
+    Rule(r"auto get = \[this\]\(size_type i, size_type j\) -> size_type& \{(.*?)\};\s*\n", r"@@GET@@\1@@END@@\n", 1, flags=16, note="named lambda returning a reference -> inlined at its single call site (below)"),
+    Rule(r"celeritas::min\(", "celer_min_u(", "*", note="celeritas::min<size_type> (extracted)"),
+    Rule(r"sim\.num_steps\(\)", "track->t->num_steps", "*", note="view read"),
+    Rule(r"(?<![\w.>])params\.(\w+)", r"self->params.\1", "*", note="member"),
+    Rule(r"auto particle = track\.make_particle_view\(\)\.particle_id\(\);", "size_type particle = track->t->particle_id;", 1, note="view read"),
+    Rule(r"auto& bin = get\(particle\.get\(\), num_steps\);", "size_type* bin; { size_type i = particle, j = num_steps; size_type index = i * self->params.num_bins + j; CELER_ENSURE(index < self->state.counts.size); bin = &self->state.counts.ptr[index]; }", 1,
+         note="call of the `get` lambda -> its body with (i, j) bound (text compared with the extracted lambda body below)"),
+    Rule(r"atomic_add\(&bin, size_type\{1\}\);", "atomic_add(bin, (size_type)1);", 1, note="reference -> pointer"),
+]
+GET_EXPECTED = "size_type index = i * self->params.num_bins + j; CELER_ENSURE(index < state.counts.size()); return state.counts[BinId(index)];"
+
+
+def build_step_diag(ctx):
+    import re
+    from vkit.extract import ExtractionDrift
+    pc = ctx.func(SDE, r"^StepDiagnosticExecutor::operator\(\)\(CoreTrackView const& track\)", SDE_RULES, name="StepDiagnosticExecutor::operator()")
+    m = re.search(r"@@GET@@(.*?)@@END@@\n", pc.body, flags=re.S)
+    got = " ".join(m.group(1).split()) if m else ""
+    if got != GET_EXPECTED:
+        raise ExtractionDrift("the `get` lambda of StepDiagnosticExecutor changed: %r" % got)
+    body = pc.body.replace(m.group(0), "")
+    mn = ctx.func(ALGO, r"CELER_CONSTEXPR_FUNCTION T const& min\(T const& a, T const& b\) noexcept", [], name="celeritas::min<T>")
+    return (HDR + DIAG_MODEL + atomic_add_size(ctx) + "static size_type celer_min_u(size_type a, size_type b)\n{" + mn.body + "}\n" + """
+#define NSTEP (track->t->num_steps < self->params.num_bins - 1 ? track->t->num_steps : self->params.num_bins - 1)
+#define SBIN (track->t->particle_id * self->params.num_bins + NSTEP)
+void SDE_call(DiagExecutor* self, CoreTrackView const* track)
+__CPROVER_requires(DIAG_OK)
+__CPROVER_requires(track->t->particle_id < self->params.num_particles)      /* a defined particle type */
+__CPROVER_assigns(__CPROVER_object_whole(self->state.counts.ptr))
+/* a track is counted once, when it is killed, in the bin of its particle type and its (clamped) number of steps; otherwise nothing changes */
+__CPROVER_ensures(COUNT(g_w) == g_oldw + ((track->t->status == TS_killed && g_w == SBIN) ? 1 : 0))
+{""" + body + """}
+void h_sde(void)
+{
+    DiagExecutor ex; Track t; CoreTrackView v = {&t}; size_type cnt[NCOUNT]; size_type w;
+    ex.state.counts.ptr = cnt; g_w = w; if (w < NCOUNT) g_oldw = cnt[w];
+    SDE_call(&ex, &v);
+    VERIF_CANARY();
+}
+""")
+
+
+UNITS += [
+    Unit("c17_action_diagnostic", build_action_diag, "h_ade", enforce="ADE_call", timeout=300, backend=["sat", "cvc5", "z3"],
+         must_have=[r"ADE_call.postcondition", r"celer_assert"], checks=CHECKS,
+         assumptions=["atomic_add treated as sequential read-modify-write", "table size bounded (<= 64 bins in the harness)", "wrap-around of a 64-bit counter not considered"],
+         note="ActionDiagnosticExecutor: count[particle * num_bins + action] += 1 exactly once, every other bin untouched; the three in-body CELER_ASSERTs hold"),
+    Unit("c17_step_diagnostic", build_step_diag, "h_sde", enforce="SDE_call", timeout=300, backend=["sat", "cvc5", "z3"],
+         must_have=[r"SDE_call.postcondition", r"celer_ensure"], checks=CHECKS,
+         assumptions=["atomic_add treated as sequential read-modify-write", "table size bounded (<= 64 bins in the harness)", "wrap-around of a 64-bit counter not considered"],
+         note="StepDiagnosticExecutor: a killed track adds 1 to count[particle * num_bins + min(steps, num_bins-1)], nothing else changes; live tracks change nothing; in-body CELER_ENSURE holds"),
+]
